@@ -36,6 +36,9 @@ pub struct Expect {
     /// bytes that precede the pattern bytes in the body (empty for raw bodies), and the body-format code on the wire
     pub body_prefix: Vec<u8>,
     pub body_format: u16,
+    /// Some(bytes): the body on the wire is exactly these bytes (JSON bodies of batch items, written out by the harness
+    /// itself); `body_len` is then their length and `body_prefix` is unused.
+    pub exact_body: Option<std::sync::Arc<Vec<u8>>>,
 }
 
 #[derive(Default)]
@@ -72,6 +75,9 @@ pub fn expected_bytes(e: &Expect, wire_id: u64) -> Vec<u8> {
         ec: 0,
         ..Default::default()
     };
+    if let Some(b) = &e.exact_body {
+        return oracle::frame(h, &e.query, b);
+    }
     let mut body = e.body_prefix.clone();
     body.extend_from_slice(&pat_fill(e.token, e.body_len));
     oracle::frame(h, &e.query, &body)
@@ -364,7 +370,7 @@ pub fn walk(stream: &[u8], book: &Book) -> Walk {
 mod tests {
     use super::*;
     fn ex(token: u64, len: usize) -> Expect {
-        Expect { token, kind: "t", notify: 1, query: format!("/c05/{token:x}").into_bytes(), body_len: len, fixed_id: None, body_prefix: vec![], body_format: 0 }
+        Expect { token, kind: "t", notify: 1, query: format!("/c05/{token:x}").into_bytes(), body_len: len, fixed_id: None, body_prefix: vec![], body_format: 0, exact_body: None }
     }
     #[test]
     fn walk_classifies() {
